@@ -406,7 +406,7 @@ func (eng *Engine) verifyFunc(ct *Contract) (res *FuncResult) {
 // bound to the k-th literal. n: only the exhaustiveness obligation (requires => var is one of the literals).
 func (eng *Engine) verifyFuncCase(ct *Contract, res *FuncResult, caseIdx int) {
 	fi := ct.Fn
-	x := &Exec{eng: eng, top: fi, usedContracts: map[string]bool{}, curProps: ct.Props}
+	x := &Exec{eng: eng, top: fi, usedContracts: map[string]bool{}, curProps: ct.Props, splitBudget: ct.Split}
 	f := &Frame{fi: fi, info: fi.Pkg.TypesInfo, contract: ct}
 	x.frames = []*Frame{f}
 	s := &State{env: map[types.Object]*Term{}, heap: map[string]*Term{}}
